@@ -218,7 +218,11 @@ func execOp(rig *Rig, o Op) Outcome {
 			return failOut("chown", err)
 		}
 	case "chtimes":
-		if err := f.Chtimes(o.A, time.Unix(0, o.At), time.Unix(0, o.Mt)); err != nil {
+		at, mt := time.Unix(0, o.At), time.Unix(0, o.Mt)
+		if o.N == -62135596800 { // witness: the zero time.Time (year 1), which nanoseconds since 1970 cannot express
+			at, mt = time.Time{}, time.Time{}
+		}
+		if err := f.Chtimes(o.A, at, mt); err != nil {
 			return failOut("chtimes", err)
 		}
 	case "stat":
@@ -283,7 +287,24 @@ func execOp(rig *Rig, o Op) Outcome {
 				ms = append(ms, staleMember(m.A, m.content(), os.FileMode(m.Perm), mt, m.N))
 			}
 		}
-		if _, err := rig.WOps.Archive(membersSrc(ms), rig.Cfg.Level, false, false); err != nil {
+		src := membersSrc(ms)
+		if o.Flag == 1 {
+			// while this call has the drive open for writing, something else appends to the tape (here: one end-of-archive marker,
+			// which every reader skips): whatever is on the tape at any moment must never be overwritten
+			inner, done := src, false
+			src = func() (config.FileConfig, error) {
+				if !done {
+					done = true
+					if f, err := os.OpenFile(rig.Drive, os.O_WRONLY|os.O_APPEND, 0); err == nil {
+						_, _ = f.Write(make([]byte, 1024))
+						_ = f.Close()
+						rig.Intruded += 1024
+					}
+				}
+				return inner()
+			}
+		}
+		if _, err := rig.WOps.Archive(src, rig.Cfg.Level, false, false); err != nil {
 			return failOut("archive", err)
 		}
 	case "update":
@@ -463,9 +484,17 @@ func applyModel(m *Model, o Op) (MOut, Outcome) {
 		sort.Strings(names)
 		return ok(), Outcome{Names: names}
 	case "archive":
+		// members are written in order: a directory of the batch is the parent of later members
+		made := map[string]bool{}
 		for _, mem := range o.Members {
+			if made[parentOf(mem.A)] {
+				continue
+			}
 			if mo, pok := m.parentOK(mem.A); !pok {
 				return mo, Outcome{}
+			}
+			if mem.K == "dir" {
+				made[mem.A] = true
 			}
 		}
 		for _, mem := range o.Members {
